@@ -128,7 +128,8 @@ func walk(n ast.Node, pts *int) {
 	})
 }
 
-// Run copies src (a go-cvss tree) to dst with the four package directories instrumented.
+// Run copies the module at src to dst with every non-test Go file of every package
+// directory instrumented (nested modules, VCS data, test data and resources are left out).
 func Run(src, dst string) (Result, error) {
 	var res Result
 	for _, f := range []string{"go.mod", "go.sum"} {
@@ -140,24 +141,39 @@ func Run(src, dst string) (Result, error) {
 			return res, err
 		}
 	}
-	for _, pkg := range []string{"20", "30", "31", "40"} {
-		if err := os.MkdirAll(filepath.Join(dst, pkg), 0o755); err != nil {
-			return res, err
-		}
-		ents, err := os.ReadDir(filepath.Join(src, pkg))
+	skip := map[string]bool{".git": true, "testdata": true, "res": true, "vendor": true}
+	var walk2 func(rel string) error
+	walk2 = func(rel string) error {
+		ents, err := os.ReadDir(filepath.Join(src, rel))
 		if err != nil {
-			return res, err
+			return err
 		}
 		pkgName := ""
 		for _, e := range ents {
 			name := e.Name()
-			if e.IsDir() || !strings.HasSuffix(name, ".go") || strings.HasSuffix(name, "_test.go") {
+			if e.IsDir() {
+				if skip[name] || strings.HasPrefix(name, ".") || strings.HasPrefix(name, "_") {
+					continue
+				}
+				// a nested module (its own go.mod) is not part of this module
+				if _, err := os.Stat(filepath.Join(src, rel, name, "go.mod")); err == nil {
+					continue
+				}
+				if err := walk2(filepath.Join(rel, name)); err != nil {
+					return err
+				}
+				continue
+			}
+			if !strings.HasSuffix(name, ".go") || strings.HasSuffix(name, "_test.go") {
 				continue
 			}
 			fset := token.NewFileSet()
-			f, err := parser.ParseFile(fset, filepath.Join(src, pkg, name), nil, parser.ParseComments)
+			f, err := parser.ParseFile(fset, filepath.Join(src, rel, name), nil, parser.ParseComments)
 			if err != nil {
-				return res, err
+				return err
+			}
+			if err := os.MkdirAll(filepath.Join(dst, rel), 0o755); err != nil {
+				return err
 			}
 			pkgName = f.Name.Name
 			for _, d := range f.Decls {
@@ -167,20 +183,32 @@ func Run(src, dst string) (Result, error) {
 			}
 			var buf bytes.Buffer
 			if err := printer.Fprint(&buf, fset, f); err != nil {
-				return res, err
+				return err
 			}
-			if err := os.WriteFile(filepath.Join(dst, pkg, name), buf.Bytes(), 0o644); err != nil {
-				return res, err
+			if err := os.WriteFile(filepath.Join(dst, rel, name), buf.Bytes(), 0o644); err != nil {
+				return err
 			}
 			res.Files++
 		}
-		if pkgName == "" {
-			return res, fmt.Errorf("no go files in %s", pkg)
+		if pkgName != "" && pkgName != "main" {
+			tag := strings.Map(func(r rune) rune {
+				if r >= 'a' && r <= 'z' || r >= 'A' && r <= 'Z' || r >= '0' && r <= '9' {
+					return r
+				}
+				return '_'
+			}, rel+"_"+pkgName)
+			y := fmt.Sprintf(yieldSrc, pkgName, tag)
+			if err := os.WriteFile(filepath.Join(dst, rel, "verif_yield_generated.go"), []byte(y), 0o644); err != nil {
+				return err
+			}
 		}
-		y := fmt.Sprintf(yieldSrc, pkgName, pkgName)
-		if err := os.WriteFile(filepath.Join(dst, pkg, "verif_yield_generated.go"), []byte(y), 0o644); err != nil {
-			return res, err
-		}
+		return nil
+	}
+	if err := walk2("."); err != nil {
+		return res, err
+	}
+	if res.Files == 0 {
+		return res, fmt.Errorf("no Go files found under %s", src)
 	}
 	return res, nil
 }
